@@ -244,6 +244,8 @@ class Engine:
                 fields[fname] = ObjV(fcls, {"__id__": IntV(fresh(f"{name}_{fname}"))})
             fields["__id__"] = IntV(fresh(name + "_id"))
             return ObjV(parts[0], fields)
+        if sort == "opaque":
+            return ObjV("opaque", {"__id__": IntV(fresh(name))})  # a value the function never inspects
         if sort == "CellSet":
             S = fresh_fun(name, z3.IntSort(), z3.IntSort(), z3.BoolSort())
             return SetV(lambda v: S(Z(v[0]), Z(v[1])), 2)
@@ -367,6 +369,8 @@ class Engine:
                 st.env[F.vararg] = params[key]
             else:
                 st.env[F.vararg] = TupV([params[k] for k in params if k.startswith(F.vararg + "#")])
+        if getattr(F, "kwarg", None):
+            st.env[F.kwarg] = ObjV("dict", {"__id__": IntV(fresh("kwargs"))})  # **kwargs: no keyword arguments are passed by the contract's call
         for pname in fparams:
             if pname not in st.env:
                 raise Unsupported(f"contract of {qualname} does not give a sort for parameter '{pname}'")
@@ -2114,6 +2118,8 @@ class Engine:
             finally:
                 self.func = saved
         K = self.contracts.get(name)
+        if K is not None and len(args) > len(K.params):
+            K = None  # more positional arguments than this variant models: the arity variant must exist
         if K is None:
             K = self.contracts.get(f"{name}@{len(args)}")
         if K is None:
